@@ -171,3 +171,16 @@ Theorem c16_code_lru_fifo_refine_model : forall (q : LRUEviction) (f : FIFOEvict
       /\ FIFOEviction__order (fst (FIFOEviction_clear f)) = C16.Model.p_clear C16.Model.fifo (FIFOEviction__order f)).
 Proof. intros q f k now dr. exact (conj (tie_lru q k now dr) (tie_fifo f k now dr)). Qed.
 Print Assumptions c16_code_lru_fifo_refine_model.
+
+(** LFUEviction AS TRANSLATED (the [_counts] dict, the write-only [_min_count]; evict = [min] over the
+    counts, then a loop over the items that deletes and returns the first key with that count — a
+    [return] inside a loop over the container it has just modified): every method acts on
+    (counts, min_count) exactly as the model policy [lfu], returns what it returns, and never raises. *)
+Theorem c16_code_lfu_refines_model : forall (q : LFUEviction) k now dr,
+  (exists q', LFUEviction_on_access q k = Some (q', tt) /\ lfu_st q' = C16.Model.p_access C16.Model.lfu k (lfu_st q))
+  /\ lfu_st (fst (LFUEviction_on_insert q k)) = C16.Model.p_insert C16.Model.lfu now k (lfu_st q)
+  /\ lfu_st (fst (LFUEviction_on_remove q k)) = C16.Model.p_remove C16.Model.lfu k (lfu_st q)
+  /\ (exists q' r, LFUEviction_evict q = Some (q', r) /\ (r, lfu_st q', dr) = C16.Model.p_evict C16.Model.lfu now dr (lfu_st q))
+  /\ lfu_st (fst (LFUEviction_clear q)) = C16.Model.p_clear C16.Model.lfu (lfu_st q).
+Proof. exact tie_lfu. Qed.
+Print Assumptions c16_code_lfu_refines_model.
